@@ -471,6 +471,19 @@ func scFD(c Case, fc *frameCtx) *evid.Failure {
 	dsts := []tcpip.Address{netsim.B4, far}
 	expectMAC := [][]byte{macOf[string(netsim.B4)], macOf[string(gw)]}
 	for i, n := range c.Sizes {
+		if i == 1 && (c.Seed>>7)&3 == 0 {
+			// neighbour churn: a station changes its MAC, then more neighbours are learned than
+			// the neighbour table holds (it recycles its slots): the next datagram for the first
+			// neighbour must still go to that neighbour's MAC (after a fresh resolution)
+			x := tcpip.Address("\x0a\x00\x00\x58")
+			fd.Stack.AddLinkAddress(1, x, tcpip.LinkAddress("\x02\x00\x00\x00\x58\x01"))
+			fd.Stack.AddLinkAddress(1, x, tcpip.LinkAddress("\x02\x00\x00\x00\x58\x02"))
+			for k := 0; k < 520; k++ {
+				a := tcpip.Address([]byte{10, 0, byte(1 + k/250), byte(1 + k%250)})
+				fd.Stack.AddLinkAddress(1, a, tcpip.LinkAddress([]byte{2, 0, 1, byte(k >> 8), byte(k), 0xcc}))
+			}
+			evid.Label("fd:neighbour-table-wrapped")
+		}
 		dst := dsts[i%2]
 		pl := pattern(c.Seed+uint64(i), n)
 		// UDP Write returns ErrWouldBlock-like results while resolving: retry briefly
